@@ -231,6 +231,13 @@ pub proof fn contract_inv_along_run(maps: Seq<Map<PartialDerivative, f64>>, keys
         }
     }
 }
+/// the key discipline: mixed keys are symmetric, Second(v) is SecondMixed(v, v) (used by unit state_props)
+pub proof fn contract_canonical_keys(a: Derivative, b: Derivative)
+    ensures tv(PartialDerivative::SecondMixed(a, b)) == tv(PartialDerivative::SecondMixed(b, a)),
+            tv(PartialDerivative::Second(a)) == tv(PartialDerivative::SecondMixed(a, a)),
+{
+    broadcast use ord_total;
+}
 // vacuity guards: the pre-conditions are satisfiable
 pub proof fn pre_sat_inv_empty() ensures inv(Map::<PartialDerivative, f64>::empty()) {}
 pub proof fn pre_sat_run()
